@@ -16,34 +16,34 @@ theorem fzC_eq (n : Nat) (c : Color) : fzC n c = c := by
 
 mutual
 
-theorem specNodeF_eq (k : Nat) (B : Mode → Color → Color → Color) (V : Rect) (x y : Int) (cc : Bool) (σ : SState) :
-    (n : Node) → specNodeF k B V x y cc σ n = specNode B V x y cc σ n
+theorem specNodeF_eq (r : KoRule) (k : Nat) (B : Mode → Color → Color → Color) (V : Rect) (x y : Int) (cc : Bool) (σ : SState) :
+    (n : Node) → specNodeF r k B V x y cc σ n = specNode r B V x y cc σ n
   | .leaf pr hasPixels color shape clips => by
     unfold specNodeF specNode
-    simp only [fzS_eq, fzC_eq, specClipsF_eq k B V x y _ clips]
+    simp only [fzS_eq, fzC_eq, specClipsF_eq r k B V x y _ clips]
   | .group pr passThrough children clips => by
     unfold specNodeF specNode
-    simp only [fzS_eq, fzC_eq, specClipsF_eq k B V x y _ clips, specListF_eq k B _ x y _ children]
+    simp only [fzS_eq, fzC_eq, specClipsF_eq r k B V x y _ clips, specListF_eq r k B _ x y _ children]
 
-theorem specListF_eq (k : Nat) (B : Mode → Color → Color → Color) (V : Rect) (x y : Int) (σ : SState) :
-    (ns : List Node) → specListF k B V x y σ ns = specList B V x y σ ns
+theorem specListF_eq (r : KoRule) (k : Nat) (B : Mode → Color → Color → Color) (V : Rect) (x y : Int) (σ : SState) :
+    (ns : List Node) → specListF r k B V x y σ ns = specList r B V x y σ ns
   | [] => by unfold specListF specList; rfl
   | n :: rest => by
     unfold specListF specList
-    rw [specNodeF_eq k B V x y false σ n, specListF_eq k B V x y _ rest]
+    rw [specNodeF_eq r k B V x y false σ n, specListF_eq r k B V x y _ rest]
 
-theorem specClipsF_eq (k : Nat) (B : Mode → Color → Color → Color) (V : Rect) (x y : Int) (σ : SState) :
-    (ns : List Node) → specClipsF k B V x y σ ns = specClips B V x y σ ns
+theorem specClipsF_eq (r : KoRule) (k : Nat) (B : Mode → Color → Color → Color) (V : Rect) (x y : Int) (σ : SState) :
+    (ns : List Node) → specClipsF r k B V x y σ ns = specClips r B V x y σ ns
   | [] => by unfold specClipsF specClips; rfl
   | n :: rest => by
     unfold specClipsF specClips
-    rw [specNodeF_eq k B V x y true σ n, specClipsF_eq k B V x y _ rest]
+    rw [specNodeF_eq r k B V x y true σ n, specClipsF_eq r k B V x y _ rest]
 
 end
 
-theorem specDocF_eq (k : Nat) (B : Mode → Color → Color → Color) (V : Rect) (x y : Int) (P : Color)
+theorem specDocF_eq (r : KoRule) (k : Nat) (B : Mode → Color → Color → Color) (V : Rect) (x y : Int) (P : Color)
     (alpha : Rat) (layers : List Node) :
-    specDocF k B V x y P alpha layers = specDoc B V x y P alpha layers := by
+    specDocF r k B V x y P alpha layers = specDoc r B V x y P alpha layers := by
   unfold specDocF specDoc
   simp only [fzS_eq, specListF_eq]
 
